@@ -74,9 +74,7 @@ def run(ctx):
                    'accumulated float frequencies)', gen, (k == 'Int' and not bad) if k != 'Unknown' else None,
                    {'trip_count': pretty(lp['trip']), 'kind': k, 'float_truncations': bad}, node=lp['node'],
                    construct='window loop [trip count kind]')
-            hdr = [e for e in I.events if e.kind == 'store' and e.data.get('name') == 'nchans']
-            ctx.require(hdr, 'split_waterfall_generator: nchans is no longer read from the header')
-            want = ctx.spec(gen, '(NCH - fchans) // f_shift + 1', env={'NCH': hdr[0].data['value']})
+            want = ctx.spec(gen, "(Waterfall(waterfall_fn, load_data=False).header['nchans'] - fchans) // f_shift + 1")
             ctx.formula('FORMULA', 'number of windows == floor((nchans - fchans)/shift) + 1', gen, lp['trip'], want, node=lp['node'],
                         construct='window loop [trip count]')
         else:
@@ -100,8 +98,8 @@ def run(ctx):
         ctx.require(c, 'split_waterfall_generator: the per-window Waterfall construction was not found')
         kw = dict(c[-1].data['kwargs'])
         idx = lp.get('index')
-        f1 = [e for e in I.events if e.kind == 'store' and e.data.get('name') == 'fch1'][0].data['value']
-        dfv = [e for e in I.events if e.kind == 'store' and e.data.get('name') == 'df'][0].data['value']
+        f1 = ctx.spec(gen, "Waterfall(waterfall_fn, load_data=False).header['fch1']")
+        dfv = ctx.spec(gen, "Waterfall(waterfall_fn, load_data=False).header['foff']")
         if lp['kind'] == 'for':
             lo = ctx.spec(gen, 'F1 + IDX * f_shift * DF', env={'F1': f1, 'DF': dfv, 'IDX': idx})
             hi = ctx.spec(gen, 'F1 + IDX * f_shift * DF + fchans * DF', env={'F1': f1, 'DF': dfv, 'IDX': idx})
